@@ -110,6 +110,12 @@ class BoundMethod:
         self.self_val = self_val
 
 
+class SuperProxy:
+    """super(cls, obj) for a record object: attribute lookup starts after cls in the MRO of obj's class"""
+    def __init__(self, cls, obj):
+        self.cls, self.obj = cls, obj
+
+
 class ModelMethod:
     def __init__(self, name, self_val):
         self.name = name
@@ -469,6 +475,10 @@ class Interp:
 
     def call_class(self, cls, args, kwargs):
         from . import models
+        if cls is super and len(args) == 2 and isinstance(args[0], type) and isinstance(args[1], Rec) and not kwargs:
+            if args[0] not in args[1].cls.__mro__:
+                raise PyRaise(TypeError('super(type, obj): obj must be an instance or subtype of type'), implicit=True)
+            return SuperProxy(args[0], args[1])
         m = self.reg.models.get(cls)
         if m is not None:
             return m(self, args, kwargs)
@@ -510,6 +520,15 @@ class Interp:
     # attribute access
 
     def getattr(self, obj, name):
+        if isinstance(obj, SuperProxy):
+            mro = obj.obj.cls.__mro__
+            for k in mro[mro.index(obj.cls) + 1:]:
+                if name in k.__dict__:
+                    raw = k.__dict__[name]
+                    if isinstance(raw, types.FunctionType):
+                        return BoundMethod(raw, obj.obj)
+                    raise Unsupported('super().%s is not a plain method' % name)
+            raise PyRaise(AttributeError("'super' object has no attribute '%s'" % name), implicit=True)
         if isinstance(obj, Rec):
             if name in obj.attrs:
                 return obj.attrs[name]
